@@ -27,6 +27,7 @@ ConfOf(e) ==
    hasRpm |-> [f \in FanIds(e.fans) |-> FanOf(e.fans, f).hasRpm],
    cfgMap |-> [f \in FanIds(e.fans) |-> FanOf(e.fans, f).cfgMap],
    cfgMinMax |-> [f \in FanIds(e.fans) |-> FanOf(e.fans, f).cfgMinMax],
+   hasPwm |-> [f \in FanIds(e.fans) |-> IF "hasPwm" \in DOMAIN FanOf(e.fans, f) THEN FanOf(e.fans, f).hasPwm ELSE TRUE],
    parallel |-> e.parallel]
 
 \* the first line is the process start: configuration, registers and database as observed
